@@ -1,24 +1,35 @@
 ----------------------------- MODULE Covariance -----------------------------
 (***************************************************************************)
 (* Homogeneous transforms act covariantly on every geometry (property C04) *)
-(* Exact reference over integer affine maps (cube rotations, mirrors,      *)
-(* integer uniform / per-axis scales, unimodular shears, integer           *)
-(* translations) and a batch validator of recorded applications.           *)
+(* Exact reference over rational affine maps with integer numerators       *)
+(* (cube rotations, mirrors, integer uniform / per-axis scales, unimodular *)
+(* shears, integer translations, the I + c.J stretches and mirrors along   *)
+(* (1,1,1), rational rotations and Householder mirrors about general       *)
+(* planes, halving, singular projections) and a batch validator of         *)
+(* recorded applications.                                                  *)
 (*                                                                         *)
 (* A record describes one history on one geometry:                         *)
 (*   pts, faces      the geometry before (integer points, 1-based faces)   *)
-(*   maps            the sequence of affine maps applied, in order         *)
+(*   maps            the sequence of affine maps applied, in order; a map  *)
+(*                   is p -> (l.p + t) / den  (den = 1 when absent)        *)
 (*   restore         TRUE when the last map is the inverse of the product  *)
 (*                   of the earlier ones (the geometry must come back)     *)
 (*   obs             what the real object reports afterwards, snapped to   *)
 (*                   integers (coordinates times obs.den)                  *)
+(* Which entry point delivered a map (apply_transform with the matrix in   *)
+(* some container / dtype / memory layout, apply_scale, apply_translation),*)
+(* what was read before or between the maps and which data was attached    *)
+(* is the harness' business: the expected geometry depends on the maps     *)
+(* only.                                                                   *)
 (* Expected: every point p moves to M.p with M the product of the maps     *)
 (* (applying A then B equals applying B.A); counts and connectivity are    *)
 (* kept; faces are re-wound exactly when det M < 0, i.e. the oriented      *)
 (* triangles of the result are the images of the original ones, reversed   *)
-(* iff det M < 0; 6*volume scales by |det M|; the centre of mass maps      *)
-(* through M; under similarity maps area scales by s^2 and the inertia     *)
-(* tensor about the centre of mass by s^5 R I R^T.                         *)
+(* iff det M < 0 (a singular M flattens the surface: the orientation of    *)
+(* a face is then left open, its three corners are not); 6*volume scales   *)
+(* by |det M|; the centre of mass maps through M; the axis-aligned bounds  *)
+(* are the bounds of the moved points; under similarity maps area scales   *)
+(* by s^2 and the inertia tensor about the centre of mass by s^5 R I R^T.  *)
 (***************************************************************************)
 EXTENDS Integers, Sequences, FiniteSets, TLC, Json
 
@@ -26,7 +37,7 @@ Cases == ndJsonDeserialize("cases.ndjson")
 VARIABLE i
 
 IdL == <<<<1, 0, 0>>, <<0, 1, 0>>, <<0, 0, 1>>>>
-IdA == [l |-> IdL, t |-> <<0, 0, 0>>]
+IdA == [l |-> IdL, t |-> <<0, 0, 0>>, den |-> 1]
 Dot(r, v) == r[1] * v[1] + r[2] * v[2] + r[3] * v[3]
 MulLV(L, v) == <<Dot(L[1], v), Dot(L[2], v), Dot(L[3], v)>>
 Col(L, j) == <<L[1][j], L[2][j], L[3][j]>>
@@ -34,13 +45,16 @@ MulLL(A, B) == [r \in 1..3 |-> <<Dot(A[r], Col(B, 1)), Dot(A[r], Col(B, 2)), Dot
 Transpose(L) == <<Col(L, 1), Col(L, 2), Col(L, 3)>>
 AddV(a, b) == <<a[1] + b[1], a[2] + b[2], a[3] + b[3]>>
 ScaleV(k, a) == <<k * a[1], k * a[2], k * a[3]>>
-Apply(A, p) == AddV(MulLV(A.l, p), A.t)
-Compose(A, B) == [l |-> MulLL(A.l, B.l), t |-> AddV(MulLV(A.l, B.t), A.t)]      \* A after B
+\* a map is p -> (l.p + t) / den ; Num(A, p) is the numerator of the image of an integer point
+Num(A, p) == AddV(MulLV(A.l, p), A.t)
+\* A after B:  (A.l (B.l p + B.t) / B.den + A.t) / A.den
+Compose(A, B) == [l |-> MulLL(A.l, B.l), t |-> AddV(MulLV(A.l, B.t), ScaleV(B.den, A.t)), den |-> A.den * B.den]
 Det(L) == L[1][1] * (L[2][2] * L[3][3] - L[2][3] * L[3][2])
         - L[1][2] * (L[2][1] * L[3][3] - L[2][3] * L[3][1])
         + L[1][3] * (L[2][1] * L[3][2] - L[2][2] * L[3][1])
 Abs(x) == IF x < 0 THEN -x ELSE x
-FromRec(e) == [l |-> e.l, t |-> e.t]
+FromRec(e) == [l |-> e.l, t |-> e.t, den |-> IF "den" \in DOMAIN e THEN e.den ELSE 1]
+Pow(x, k) == IF k = 2 THEN x * x ELSE IF k = 3 THEN x * x * x ELSE x * x * x * x * x
 
 \* product of a sequence of maps applied in order: maps[1] first
 RECURSIVE Total(_, _)
@@ -56,32 +70,53 @@ IsSimilarity(L) == LET G == MulLL(Transpose(L), L) IN
                    /\ G[1][2] = 0 /\ G[1][3] = 0 /\ G[2][3] = 0
 ScaleSq(L) == Dot(L[1], L[1])
 
+Has(c, f) == f \in DOMAIN c.obs /\ c.obs[f]
+
 Clause(c) ==
     LET M == MapOf(c)
-        d == c.obs.den
+        d == c.obs.den            \* observed coordinates are multiplied by d; d is a multiple of M.den
+        q == M.den
         n == Len(c.pts)
-        img == [k \in 1..n |-> ScaleV(d, Apply(M, c.pts[k]))]
-        det == Det(M.l)
+        \* q * d * (image of point k): the observed integer coordinates times q must equal it
+        img == [k \in 1..n |-> ScaleV(d, Num(M, c.pts[k]))]
+        got == [k \in 1..Len(c.obs.pts) |-> ScaleV(q, c.obs.pts[k])]
+        det == Det(M.l)           \* det M = det / q^3 : same sign
+        iden == IF "iden" \in DOMAIN c.obs THEN c.obs.iden ELSE d * d * d * d * d
     IN IF Len(c.obs.pts) # n THEN "point_count_changed"
        \* every point moves to M.p; order of points is kept (attached data stays aligned)
-       ELSE IF \E k \in 1..n : c.obs.pts[k] # img[k] THEN "points_move_to_Mp"
+       ELSE IF \E k \in 1..n : got[k] # img[k] THEN "points_move_to_Mp"
        ELSE IF Len(c.faces) > 0 /\ Len(c.obs.faces) # Len(c.faces) THEN "face_count_changed"
-       ELSE IF Len(c.faces) > 0 /\
+       ELSE IF Len(c.faces) > 0 /\ det = 0 /\
+               \E k \in 1..Len(c.faces) :
+                   {got[c.obs.faces[k][j]] : j \in 1..3} # {img[c.faces[k][j]] : j \in 1..3}
+            THEN "face_corners_changed"
+       ELSE IF Len(c.faces) > 0 /\ det # 0 /\
                LET obsTris == [k \in 1..Len(c.obs.faces) |->
-                                 TriKey(c.obs.pts[c.obs.faces[k][1]], c.obs.pts[c.obs.faces[k][2]], c.obs.pts[c.obs.faces[k][3]])]
+                                 TriKey(got[c.obs.faces[k][1]], got[c.obs.faces[k][2]], got[c.obs.faces[k][3]])]
                    expTris == [k \in 1..Len(c.faces) |->
                                  IF det < 0
                                  THEN TriKey(img[c.faces[k][3]], img[c.faces[k][2]], img[c.faces[k][1]])
                                  ELSE TriKey(img[c.faces[k][1]], img[c.faces[k][2]], img[c.faces[k][3]])]
                IN obsTris # expTris     \* face k stays face k (per-face data stays attached)
             THEN "rewound_iff_negative_determinant"
-       ELSE IF c.obs.has_vol /\ c.obs.vol6 # Abs(det) * c.vol6 * d * d * d THEN "volume_scales_by_abs_det"
+       \* 6 V' d^3 = |det| / q^3 . 6 V . d^3
+       ELSE IF c.obs.has_vol /\ c.obs.vol6 * Pow(q, 3) # Abs(det) * c.vol6 * Pow(d, 3) THEN "volume_scales_by_abs_det"
        \* centre of mass maps through M: c.com and c.obs.com are both multiplied by c.comden (and obs by d)
-       ELSE IF c.obs.has_com /\ c.obs.com # ScaleV(d, AddV(MulLV(M.l, c.com), ScaleV(c.comden, M.t))) THEN "centre_of_mass_maps_through_M"
-       ELSE IF c.obs.has_area /\ IsSimilarity(M.l) /\ c.obs.area2 # ScaleSq(M.l) * c.area2 * d * d THEN "area_scales_by_s2"
-       \* inertia about the centre of mass under M = s.Q (Q orthogonal): s^5 Q I Q^T = |det L| . L I L^T
+       ELSE IF c.obs.has_com /\ ScaleV(q, c.obs.com) # ScaleV(d, AddV(MulLV(M.l, c.com), ScaleV(c.comden, M.t))) THEN "centre_of_mass_maps_through_M"
+       \* axis-aligned bounds are the bounds of the moved points
+       ELSE IF Has(c, "has_bounds") /\ n > 0 /\
+               \E j \in 1..3 :
+                   \/ \E k \in 1..n : img[k][j] < q * c.obs.bounds[1][j] \/ img[k][j] > q * c.obs.bounds[2][j]
+                   \/ ~ \E k \in 1..n : img[k][j] = q * c.obs.bounds[1][j]
+                   \/ ~ \E k \in 1..n : img[k][j] = q * c.obs.bounds[2][j]
+            THEN "bounds_follow_points"
+       \* s^2 = ScaleSq(l) / q^2
+       ELSE IF c.obs.has_area /\ IsSimilarity(M.l) /\ c.obs.area2 * Pow(q, 2) # ScaleSq(M.l) * c.area2 * Pow(d, 2) THEN "area_scales_by_s2"
+       \* inertia about the centre of mass under M = s.Q (Q orthogonal): s^5 Q I Q^T = |det M| . M I M^T
+       \* = |det| l I l^T / q^5 ; the observed tensor is multiplied by iden
        ELSE IF c.obs.has_inertia /\ IsSimilarity(M.l) /\
-               c.obs.inertia # [r \in 1..3 |-> ScaleV(Abs(det) * d * d * d * d * d, MulLL(MulLL(M.l, c.inertia), Transpose(M.l))[r])]
+               [r \in 1..3 |-> ScaleV(Pow(q, 5), c.obs.inertia[r])] #
+               [r \in 1..3 |-> ScaleV(Abs(det) * iden, MulLL(MulLL(M.l, c.inertia), Transpose(M.l))[r])]
             THEN "inertia_tensor_law"
        ELSE "ok"
 
@@ -94,6 +129,9 @@ Report == LET c == Cases[i]  cl == IF c.exc # "" THEN "raised" ELSE Clause(c)
 RefLaws == LET c == Cases[i] IN
            Len(c.maps) >= 2 =>
               /\ Det(Total(c.maps, 2).l) = Det(c.maps[1].l) * Det(c.maps[2].l)
+              /\ Total(c.maps, 2).den = FromRec(c.maps[1]).den * FromRec(c.maps[2]).den
+              \* B(A(p)) with A(p) = Num(A, p) / A.den :  numerator B.l Num(A, p) + A.den B.t
               /\ \A k \in 1..Len(c.pts) :
-                    Apply(Total(c.maps, 2), c.pts[k]) = Apply(FromRec(c.maps[2]), Apply(FromRec(c.maps[1]), c.pts[k]))
+                    Num(Total(c.maps, 2), c.pts[k]) =
+                        AddV(MulLV(c.maps[2].l, Num(FromRec(c.maps[1]), c.pts[k])), ScaleV(FromRec(c.maps[1]).den, c.maps[2].t))
 =============================================================================
